@@ -18,8 +18,11 @@ Hypotheses, each explicit and satisfiable (examples at the end):
 * `start < 65536`;
 * `runOk`        — H-window: every arriving copy is within 2^15 packets of the receiver's release point
                    (16-bit ids cannot survive more: `half_window_needed` below; DESIGN §6 D12).
-* atomic `send`  — one writer at a time per substream (`Op.send` is one step). The code guarantees it only
-                   if callers do not overlap sends on a substream; see `level_note` (D11).
+* one writer at a time per substream — the per-substream send lock (repo commit 5f9d62f, D11): `Op.begin` is refused
+                   while another `send` of the substream is between its fragments. A `send` itself is NOT atomic:
+                   `Op.begin msg` followed by one `Op.frag` per fragment, and keep-alive pings (same id counter on
+                   substream 0, sent by the timer task without the lock), `disconnect()` and arrivals may fall between
+                   any two fragments. `Op.send msg` is the same call with nothing in between.
 
 **L1 → L2 (receive side).** The endpoint model that reproduces real sessions byte for byte (`NxModel/Prudp/Conn.lean`) refines
 this channel on its receive path: `window_update_natural` (the sliding window does not look at what it stores),
@@ -42,28 +45,40 @@ theorem C01_safety (c : Cipher) (hc : CipherOk c) (size : Nat) (hsz : 1 ≤ size
     (ops : List Op) (hok : runOk c size (init start) ops = true) :
     (run c size (init start) ops).r.core.reasm.out <+: (run c size (init start) ops).s.sent := by
   obtain ⟨hS, hR⟩ := inv_run c hc size hsz start ops (init start) (inv_init c start hs).1 (inv_init c start hs).2 hok
-  have hlog : (run c size (init start) ops).s.log =
-      (run c size (init start) ops).s.log.take (run c size (init start) ops).r.nrel ++
-      (run c size (init start) ops).s.log.drop (run c size (init start) ops).r.nrel := (List.take_append_drop _ _).symm
-  have h1 := hS.cons
-  rw [hlog, consume_append, ← hR.core] at h1
-  have h2 := out_prefix c ((run c size (init start) ops).s.log.drop (run c size (init start) ops).r.nrel)
-    (run c size (init start) ops).r.core
-  rw [h1] at h2
-  exact h2
+  exact delivered_prefix_sent c start _ hS hR
 
-/-- **Completeness.** Once every packet of the log has been released, exactly the sent messages have been
-    delivered, no partial message is pending and the cipher positions agree. -/
+/-- **Completeness.** Once every packet of the log has been released and no `send` is in the middle of its fragments,
+    exactly the sent messages have been delivered, no partial message is pending and the cipher positions agree —
+    while the connection is open, and also after a `disconnect()` that was issued while no `send` was in progress. -/
 theorem C01_complete (c : Cipher) (hc : CipherOk c) (size : Nat) (hsz : 1 ≤ size) (start : Nat) (hs : start < 65536)
     (ops : List Op) (hok : runOk c size (init start) ops = true)
-    (hall : (run c size (init start) ops).r.nrel = (run c size (init start) ops).s.log.length) :
+    (hall : (run c size (init start) ops).r.nrel = (run c size (init start) ops).s.log.length)
+    (hidle : (run c size (init start) ops).s.pending = [])
+    (hclean : (run c size (init start) ops).s.closing = false ∨ (run c size (init start) ops).s.clean = true) :
     (run c size (init start) ops).r.core.reasm.out = (run c size (init start) ops).s.sent ∧
     (run c size (init start) ops).r.core.reasm.buf = [] ∧
     (run c size (init start) ops).r.core.decPos = (run c size (init start) ops).s.encPos := by
   obtain ⟨hS, hR⟩ := inv_run c hc size hsz start ops (init start) (inv_init c start hs).1 (inv_init c start hs).2 hok
   have h := hR.core
-  rw [hall, List.take_length, hS.cons] at h
+  rw [hall, List.take_length, sndInv_cons hS hidle hclean] at h
   rw [h]; exact ⟨rfl, rfl, rfl⟩
+
+/-- **Completeness, with a `send` in the middle of its fragments.** While the connection is open and everything emitted so far
+    has been released, releasing the fragments the `send` in progress still has to emit — whatever ids they get, i.e. whatever
+    pings fall in between — completes exactly the sent messages. -/
+theorem C01_complete_in_progress (c : Cipher) (hc : CipherOk c) (size : Nat) (hsz : 1 ≤ size) (start : Nat) (hs : start < 65536)
+    (ops : List Op) (hok : runOk c size (init start) ops = true)
+    (hall : (run c size (init start) ops).r.nrel = (run c size (init start) ops).s.log.length)
+    (hopen : (run c size (init start) ops).s.closing = false) (id : Nat) :
+    ((run c size (init start) ops).r.core.consume c
+        (wiresOf c id (run c size (init start) ops).s.encPos (run c size (init start) ops).s.pending)).reasm =
+      ⟨[], (run c size (init start) ops).s.sent⟩ := by
+  obtain ⟨hS, hR⟩ := inv_run c hc size hsz start ops (init start) (inv_init c start hs).1 (inv_init c start hs).2 hok
+  have h := hR.core
+  rw [hall, List.take_length] at h
+  have hl := hS.live hopen
+  rw [consume_append, ← h, consume_wiresOf_id c _ _ id] at hl
+  rw [hl]
 
 /-- **Progress.** While the receiver is open, an arrival of the packet it is waiting for is always released
     (so delivering each outstanding packet once — by retransmission, C02 — reaches `C01_complete`). -/
@@ -89,6 +104,11 @@ theorem C01_progress (c : Cipher) (hc : CipherOk c) (size : Nat) (hsz : 1 ≤ si
   simp only [hopen, Bool.false_eq_true, if_false, hid]
   have : 0 < (ch.r.win.update (idOf start ch.r.nrel) w).2.length := List.length_pos_iff.mpr hne
   omega
+
+/-- the one-step `send` of the model is `begin` followed by one `frag` per fragment: the fragment-granular operations
+    describe the same call, they only allow other things to happen in between -/
+theorem send_is_begin_then_frags (c : Cipher) (size : Nat) (s : Sender) (m : Bytes) (hcl : s.closing = false) (hp : s.pending = []) :
+    s.send c size m = fragN c (split size m).length (s.begin size m) := send_eq_begin_frags c size s m hcl hp
 
 /-- fragmentation: a non-empty message reassembles to exactly itself — for every size ≥ 1 and every length,
     exact multiples of the fragment size included -/
@@ -127,6 +147,21 @@ example :
       (run idCipher 2 (init 65535) ops).s.sent = [[1, 2, 3, 4, 5], [9]] := by decide
 
 example : CipherOk idCipher := idCipher_ok
+
+/-- a keep-alive ping between the fragments of a message (and a duplicate of it, and reordering): the message arrives whole -/
+example :
+    let ops := [Op.begin [1, 2, 3, 4, 5], .frag, .ping, .frag, .arrive 2, .frag, .arrive 1, .arrive 1, .arrive 3, .arrive 0]
+    runOk idCipher 2 (init 7) ops = true ∧
+      (run idCipher 2 (init 7) ops).s.log.map (·.kind) = [.data 1, .ping, .data 2, .data 0] ∧
+      (run idCipher 2 (init 7) ops).r.core.reasm.out = [[1, 2, 3, 4, 5]] ∧
+      (run idCipher 2 (init 7) ops).s.sent = [[1, 2, 3, 4, 5]] ∧ (run idCipher 2 (init 7) ops).s.pending = [] := by decide
+
+/-- a `send` that is still between its fragments: the hypotheses of `C01_complete_in_progress` are met -/
+example :
+    let ops := [Op.begin [1, 2, 3, 4, 5], .frag, .ping, .arrive 0, .arrive 1]
+    runOk idCipher 2 (init 7) ops = true ∧ (run idCipher 2 (init 7) ops).r.nrel = (run idCipher 2 (init 7) ops).s.log.length ∧
+      (run idCipher 2 (init 7) ops).s.closing = false ∧ (run idCipher 2 (init 7) ops).s.pending.length = 2 ∧
+      (run idCipher 2 (init 7) ops).r.core.reasm = ⟨[1, 2], []⟩ := by decide
 
 /-! ### the L1 endpoint's receive path refines the L2 receiver -/
 
